@@ -183,15 +183,14 @@ Definition fill_buf (st : bbr) : res unit * bbr :=
       match read_to_end_take (S (N.to_nat (cap st - nlen buf1))) (cap st - nlen buf1) src buf1 with
       | None => (OutOfFuel, st)
       | Some (buf2, src') =>
-        if buf_len st <? byte_pos then (Panic 4, st)                     (* self.buf_len - byte_pos *)
-        else
-          let input' := if buf_len st - byte_pos =? nlen buf2 then None else Some src' in
-          let '(sk, r1) := br_skip (bit_pos mod 8) (mkbr buf2 0 0 0) in
-          let st' := mkbbr input' r1 (cap st) (nlen buf2) (nreads st + (sidx src' - sidx src)) in
-          match sk with
-          | Ok _ => (Ok tt, st')
-          | EParse e => (EParse e, st') | EIo e => (EIo e, st') | Panic s => (Panic s, st') | OutOfFuel => (OutOfFuel, st')
-          end
+        (* `if buf.len() < buf.capacity() { self.input = None; }`: read_to_end stopped before the limit = end of input *)
+        let input' := if nlen buf2 <? cap st then None else Some src' in
+        let '(sk, r1) := br_skip (bit_pos mod 8) (mkbr buf2 0 0 0) in
+        let st' := mkbbr input' r1 (cap st) (nlen buf2) (nreads st + (sidx src' - sidx src)) in
+        match sk with
+        | Ok _ => (Ok tt, st')
+        | EParse e => (EParse e, st') | EIo e => (EIo e, st') | Panic s => (Panic s, st') | OutOfFuel => (OutOfFuel, st')
+        end
       end
   end.
 
